@@ -252,6 +252,51 @@ Theorem C10_design_item3_literal_refuted : ~ design_item3_literal.
 Proof. exact design_item3_literal_refuted. Qed.
 Print Assumptions C10_design_item3_literal_refuted.
 
+(* ================================================================ 3''. the data-sheet registry *)
+
+(* a data_sheet row (re)defines exactly one name — a later definition replaces an earlier
+   one — from the registry as it stands just before it; merely reading a sheet registers
+   nothing; no other row, ignore_row included, touches the entry *)
+Theorem C10_data_row_defines : forall wbs r st st' n,
+  step_other wbs r st = Ok st' -> row_data_key r = Some n ->
+  exists model rows st1,
+    concat_data wbs (r_sheets r) None [] st = Ok (model, rows, st1) /\
+    st_data st' = sset (st_data st) n (mk_dsheet (match model with Some m => m | None => 0 end) rows).
+Proof. exact data_row_defines. Qed.
+Print Assumptions C10_data_row_defines.
+
+Theorem C10_data_row_frame : forall wbs r st st' n,
+  step_other wbs r st = Ok st' -> row_data_key r <> Some n ->
+  sget (st_data st') n = sget (st_data st) n.
+Proof. exact data_row_frame. Qed.
+Print Assumptions C10_data_row_frame.
+
+Theorem C10_data_last_definition : forall wbs pre r post st' n,
+  run_rows wbs (pre ++ r :: post) st0 = Ok st' ->
+  row_data_key r = Some n ->
+  (forall r', In r' post -> row_data_key r' <> Some n) ->
+  exists st1 model rows st2,
+    run_rows wbs pre st0 = Ok st1 /\
+    concat_data wbs (r_sheets r) None [] st1 = Ok (model, rows, st2) /\
+    sget (st_data st') n = Some (mk_dsheet (match model with Some m => m | None => 0 end) rows).
+Proof. exact data_last_definition. Qed.
+Print Assumptions C10_data_last_definition.
+
+Theorem C10_data_never_defined : forall wbs rows st' n,
+  run_rows wbs rows st0 = Ok st' ->
+  (forall r, In r rows -> row_data_key r <> Some n) ->
+  sget (st_data st') n = None.
+Proof. exact data_never_defined. Qed.
+Print Assumptions C10_data_never_defined.
+
+Example C10_data_nonvacuous :
+  ex_hist = firstn 9 ex_hist ++ r_data :: [r_flowC_data] /\
+  row_data_key r_data = Some sD1 /\ row_data_key r_flowC_data = None /\
+  rmap (fun st => option_map (fun ds => okeys (ds_rows ds)) (sget (st_data st) sD1))
+       (run_rows ex_wbs ex_hist st0) = Ok (Some [s_r1; s_r2]).
+Proof. exact ex_data. Qed.
+Print Assumptions C10_data_nonvacuous.
+
 (* ================================================================ 4. ignore_row *)
 
 Theorem C10_ignore_never_template : forall n st, st_templates (ignore_row n st) = st_templates st.
